@@ -2,7 +2,8 @@
    Only statements, each closed by `exact <lemma>`, with Print Assumptions, and non-vacuity Examples.
    Model: Model/RpState.v — per issuer one client (configuration, state store db : state -> record,
    key map : nonce / sub -> state); a world is the issuer2rp table of an RPHandler; operations are
-   OBegin / OAuthz / OToken / OUserinfo / ORoutedToken with responses the adversary recombines freely. *)
+   OBegin / OAuthz / OToken / OUserinfo / ORoutedToken / ORefresh / ORoutedRefresh / ORoutedUserinfo with
+   responses the adversary recombines freely. *)
 From Coq Require Import String.
 From Verif Require Import Lib.Base Lib.PyStr Lib.RpTy Gen.RpTables Model.IdToken Model.RpState Model.RpExamples
      Proofs.IdToken_proofs Proofs.RpState_proofs.
@@ -123,6 +124,102 @@ Theorem C09_history : forall lhash cfgs pre i r now w' stored,
     assoc (PS "iss") rec = Some (VStr (eff_issuer (cl_cfg c))).
 Proof. exact history_authz_own. Qed.
 Print Assumptions C09_history.
+
+(* ---- back-channel responses: token response of a code exchange, refresh response, user info ----
+   The relying party makes these requests itself, for ONE session: get_tokens(st) / refresh_access_token(st) /
+   get_user_info(st), directly on a client or through the RPHandler (client found via the state).  What the HTTP
+   layer returns is arbitrary: oauth2.AccessTokenResponse may legally carry a `state` member, any JSON object
+   may carry members named state / iss / client_id / nonce / code / redirect_uri / refresh_token ..., an ID
+   Token of another flow.  backchannel_of o = Some st says o is such a request made for st. *)
+
+(* The key of a back-channel response is the key of the REQUEST, for every content of the response: the
+   operation is refused and the world is unchanged, or it is accepted and the record of st - in the client the
+   request was made by - is updated with what is handed back; that is all that happens to the records. *)
+Theorem C09_backchannel_key : forall lhash w o st w' out,
+  backchannel_of o = Some st -> step lhash w o = (w', out) ->
+  ((forall d, out <> Ok d) /\ w' = w) \/
+  exists i c rec stored m, op_target w o = Some i /\ assoc i w = Some c /\ db_get (cl_db c) st = Ok rec /\
+    out = Ok stored /\ w' = w_set w i (mkClient (cl_cfg c) (db_update (cl_db c) st stored) m).
+Proof. exact world_backchannel_key. Qed.
+Print Assumptions C09_backchannel_key.
+
+(* Recorded under the state of the request only: after an accepted back-channel response the record of st is
+   the old record updated with the response, and no other record of any client has changed. *)
+Theorem C09_backchannel_recorded : forall lhash w o st w' stored,
+  backchannel_of o = Some st -> step lhash w o = (w', Ok stored) ->
+  exists i rec, op_target w o = Some i /\ rec_of w i st = Some rec /\
+    rec_of w' i st = Some (dict_update rec stored) /\
+    (forall j s, j <> i \/ s <> st -> rec_of w' j s = rec_of w j s).
+Proof. exact world_backchannel_recorded. Qed.
+Print Assumptions C09_backchannel_recorded.
+
+(* A `state` member of the response that names another session is data, never a key: the record of the session
+   it names is untouched, whether the response is accepted or refused. *)
+Theorem C09_backchannel_named_state_untouched : forall lhash w o st w' out s j,
+  backchannel_of o = Some st -> step lhash w o = (w', out) ->
+  has_entry (PS "state") (VStr s) (backchannel_members o) = true -> s <> st ->
+  rec_of w' j s = rec_of w j s.
+Proof. exact world_backchannel_named_state_untouched. Qed.
+Print Assumptions C09_backchannel_named_state_untouched.
+
+(* The nonce binding of a code exchange made through the RPHandler (C09_nonce_binding: on a client). *)
+Theorem C09_routed_nonce_binding : forall lhash w st r now w' stored v,
+  step lhash w (ORoutedToken st r now) = (w', Ok stored) ->
+  assoc (verified_name (PS "id_token")) stored = Some v ->
+  exists i vd n, op_target w (ORoutedToken st r now) = Some i /\ v = VDict vd /\
+    assoc (PS "nonce") vd = Some (VStr n) /\ map_of w i n = Some st.
+Proof. exact world_routed_token_nonce. Qed.
+Print Assumptions C09_routed_nonce_binding.
+
+(* The ID Token of a refresh response is bound to the session that is refreshed (OpenID Connect Core 12.2): a
+   nonce in it is bound, in the client that asked, to the very state the refresh was made for, and its subject
+   is the subject of the ID Token the session already has.  So the ID Token of another flow or another user in
+   the refresh response of this session is refused (C09_reject_changes_nothing: nothing changes). *)
+Theorem C09_refresh_idtoken_bound : forall lhash w o st w' stored v,
+  refresh_of o = Some st -> step lhash w o = (w', Ok stored) ->
+  assoc (verified_name (PS "id_token")) stored = Some v ->
+  exists i vd rec, op_target w o = Some i /\ v = VDict vd /\ rec_of w i st = Some rec /\
+    (forall n, assoc (PS "nonce") vd = Some (VStr n) -> map_of w i n = Some st) /\
+    (forall before s, assoc (verified_name (PS "id_token")) rec = Some (VDict before) ->
+                      assoc (PS "sub") before = Some (VStr s) -> assoc (PS "sub") vd = Some (VStr s)).
+Proof. exact world_refresh_idtoken_bound. Qed.
+Print Assumptions C09_refresh_idtoken_bound.
+
+(* non-vacuity: one client, flows S1 (diana) and S2 (bob), both finalized.  The token response for S2 carries
+   `state` = S1 (and a refresh token): accepted, recorded under S2, the record of S1 untouched; the same response
+   with the ID Token of flow S1 is refused; then S1 redeems its code.  The refresh for S2: answered with the ID
+   Token of flow S1 (refused: another user), with bob's subject and the nonce of S1 (refused: nonce of another
+   flow), with its own ID Token and `state` = S1 (accepted under S2 - also through the RPHandler - S1 untouched);
+   user info for S2 carrying `state` = S1 lands under S2. *)
+Example C09_backchannel_nonvacuous :
+  let S1 := PS "S1" in let S2 := PS "S2" in
+  let w0 := run ex_lhash ex_world
+              [OBegin ex_iss S1 (PS "N1") (ex_req S1 (PS "N1")); OBegin ex_iss S2 (PS "N2") (ex_req S2 (PS "N2"));
+               OAuthz ex_iss (ex_authz_resp S1 None) ex_now; OAuthz ex_iss (ex_authz_resp S2 None) ex_now] in
+  let named t := mkResp ((PS "state", VStr S1) :: (PS "refresh_token", VStr (PS "RT2")) :: r_params (ex_token_resp (Some t)))
+                        (Some t) in
+  let bob2 := ex_tok_te (PS "N2") (PS "bob") in
+  let tok2 := OToken ex_iss S2 (named bob2) ex_now in
+  let w1 := fst (step ex_lhash w0 tok2) in
+  let w2 := fst (step ex_lhash w1 (OToken ex_iss S1 (ex_token_resp (Some (ex_tok_te (PS "N1") (PS "diana")))) ex_now)) in
+  let stored_at w s k := match rec_of w ex_iss s with Some rec => assoc k rec | None => None end in
+  is_ok (snd (step ex_lhash w0 tok2)) = true /\
+  rec_of w1 ex_iss S1 = rec_of w0 ex_iss S1 /\
+  stored_at w1 S2 (PS "access_token") = Some (VStr (PS "AT1")) /\
+  stored_at w1 S1 (PS "access_token") = None /\
+  step ex_lhash w0 (OToken ex_iss S2 (named (ex_tok_te (PS "N1") (PS "diana"))) ex_now) = (w0, Err E_ParameterError) /\
+  is_ok (snd (step ex_lhash w1 (OToken ex_iss S1 (ex_token_resp (Some (ex_tok_te (PS "N1") (PS "diana")))) ex_now))) = true /\
+  step ex_lhash w2 (ORefresh ex_iss S2 (named (ex_tok_te (PS "N1") (PS "diana"))) ex_now) = (w2, Err E_ParameterError) /\
+  step ex_lhash w2 (ORefresh ex_iss S2 (named (ex_tok_te (PS "N1") (PS "bob"))) ex_now) = (w2, Err E_ParameterError) /\
+  step ex_lhash w2 (ORefresh ex_iss S2 (named (ex_tok_te (PS "N9") (PS "bob"))) ex_now) = (w2, Err ValueError) /\
+  is_ok (snd (step ex_lhash w2 (ORefresh ex_iss S2 (named bob2) ex_now))) = true /\
+  is_ok (snd (step ex_lhash w2 (ORoutedRefresh S2 (named bob2) ex_now))) = true /\
+  rec_of (fst (step ex_lhash w2 (ORoutedRefresh S2 (named bob2) ex_now))) ex_iss S1 = rec_of w2 ex_iss S1 /\
+  step ex_lhash w2 (ORefresh ex_iss S1 (named bob2) ex_now) = (w2, Err E_MissingRequiredAttribute) /\
+  (let w3 := fst (step ex_lhash w2 (ORoutedUserinfo S2 [(PS "sub", VStr (PS "bob")); (PS "state", VStr S1)])) in
+   stored_at w3 S2 (PS "sub") = Some (VStr (PS "bob")) /\ rec_of w3 ex_iss S1 = rec_of w2 ex_iss S1) /\
+  step ex_lhash w2 (ORoutedUserinfo S2 [(PS "sub", VStr (PS "diana")); (PS "state", VStr S1)]) = (w2, Err ValueError).
+Proof. vm_compute. repeat split. Qed.
 
 (* ---- hybrid and implicit flows: EVERY member of a front-channel response is bound to the flow of its state ----
    Response types "code id_token", "code token", "code id_token token", "id_token token", "id_token": the
